@@ -8,7 +8,8 @@ use super::super::p2::{compile_text, Compiled};
 use super::Meta;
 
 pub const META: Meta = Meta {
-    rule: "Texts: (chars3) every string of length<=3 over a 42-symbol alphabet built from the scanner's dispatch characters; \
+    rule: "Texts: (unicode) every Unicode scalar value (quick tier: all below U+3000 and every 13th above) in ten positions: alone, at the start of a token inside an expression, directly after a digit, after a letter, after `0x` and `1.`, \
+inside a string, a char literal and a comment, doubled; (chars3) every string of length<=3 over a 42-symbol alphabet built from the scanner's dispatch characters; \
 (tokens) every sequence of <=3 (quick) / <=4 (thorough) tokens from a ~80-entry vocabulary, joined with ' ' and with ''; \
 (soup) proptest byte-vectors decoded into token soup of 4..60 tokens with random joiners; (mutants) example/grammar texts with 1..5 random \
 token/character deletions, insertions, replacements, duplications and truncation. Bracket nesting is capped at 64 by construction. \
@@ -315,8 +316,52 @@ fn mutate(c: &mut Choices, bases: &[String]) -> (String, usize) {
     (s, ntok)
 }
 
+/// Every Unicode scalar value (quick tier: everything below U+3000 and every 13th above) at the start of a token,
+/// after a digit, after a letter, inside a string, a char literal and a comment: the scanner classifies characters
+/// with several predicates (`is_alphabetic`, `is_ascii_digit`, `is_numeric`, `is_whitespace` ...) that disagree
+/// outside ASCII.
+fn enum_unicode(ctx: &mut Ctx) {
+    let thorough = ctx.tier == Tier::Thorough;
+    let mut idx = 0u64;
+    for cp in 0x80u32..0x110000 {
+        let ch = match char::from_u32(cp) {
+            Some(c) => c,
+            None => continue,
+        };
+        if !thorough && cp >= 0x3000 && cp % 13 != 0 {
+            continue;
+        }
+        idx += 1;
+        if !ctx.mine(idx) {
+            continue;
+        }
+        for (k, t) in [
+            format!("{}", ch),
+            format!("let v = 40 + {};", ch),
+            format!("1{} + 2;", ch),
+            format!("x{};", ch),
+            format!("\"{}\";", ch),
+            format!("'{}';", ch),
+            format!("# {}\n1;", ch),
+            format!("0x{} ", ch),
+            format!("1.{};", ch),
+            format!("{}{}", ch, ch),
+        ]
+        .iter()
+        .enumerate()
+        {
+            let vs = check_text(ctx, "unicode", t, 1 + k, if k == 0 { Count::Distinct } else { Count::Hashed });
+            for v in vs {
+                ctx.report(v);
+            }
+        }
+        ctx.class("unicode-scalar");
+    }
+}
+
 pub fn run(ctx: &mut Ctx) {
     enum_chars(ctx);
+    enum_unicode(ctx);
     enum_tokens(ctx, ctx.tier.pick(3, 4));
     ctx.more_samples(3);
     let n = ctx.nshards as u32;
